@@ -51,6 +51,13 @@ def gen_script(rnd, schema_ids, alphabet, length):
                     lines.append("%d key %d %d" % (lg, rnd.choice(XK), rnd.choice(MASKS[:12])))
                 else:
                     lines.append("%d key %d %d" % (lg, ord(rnd.choice("1234567890,.!/($`':;T-=[]<>?\\\"")), 0))
+        elif r < 0.47:
+            # the schema switcher: hot key (F4 / Control+grave) once or several times in a row, then keys inside its menu
+            for _ in range(rnd.choice([1, 2, 2, 3])):
+                lines.append("%d key %d %d" % (lg, *rnd.choice([(0xffc1, 0), (0xffc1, 0), (0x60, 4), (0x60, 5)])))
+            for _ in range(rnd.randint(0, 4)):
+                lines.append("%d key %d 0" % (lg, rnd.choice([0xff54, 0xff52, 0xff56, 0xff55, 0x31, 0x32, 0x33, 0x20, 0xff0d, 0xff1b, 0xffc1])))
+            lines.append("%d %s" % (lg, rnd.choice(["get_context", "get_status", "key 65307 0"])))
         elif r < 0.50:
             # boundary navigation: put the caret at an edge (or anywhere), then one navigation/editing key under every modifier mask
             lines.append("%d %s" % (lg, rnd.choice(["key 65360 0", "key 65367 0", "set_caret 0", "set_caret 1", "set_caret 999", "key 97 4", "key 101 4",
@@ -165,11 +172,11 @@ def crash_class(r):
     m = re.search(r"([\w/\.]+\.(?:cc|h)):(\d+):\d+: runtime error: ([^\n]*)", e)
     if m:
         return "ubsan:%s:%s" % (os.path.basename(m.group(1)), m.group(3)[:60].strip().replace(" ", "_"))
-    m = re.search(r"ERROR: AddressSanitizer: ([\w-]+)", e)
+    m = re.search(r"ERROR: AddressSanitizer: ((?:attempting )?[\w-]+)", e)
     if m:
         fr = re.findall(r"#\d+ 0x[0-9a-f]+ in ([^\s]+) [^\n]*?/src/rime/([\w/]+\.(?:cc|h)):(\d+)", e)
         where = ("%s:%s" % (fr[0][1].split("/")[-1], fr[0][0][:40])) if fr else "?"
-        return "asan:%s:%s" % (m.group(1), where)
+        return "asan:%s:%s" % (m.group(1).replace(" ", "-"), where)
     if "terminate called" in e:
         return "exception-escaped"
     return "abnormal-exit-rc%d" % r["rc"]
@@ -214,6 +221,8 @@ def run(ctx):
     ctx.assumptions += [
         "partial: the theorems cover the API handle ledger (and the modelled session core); memory safety of all other C++ is explored by the sanitizer-backed run, which is testing",
         "a crash inside rime_deployer while deploying a mutated schema is recorded but not judged (the property is about session calls)",
+        "C01_core_total (totality of the modelled session core for all API histories) assumes the translator hypothesis cands_fit (each candidate ends inside its segment), "
+        "proved for the synthetic oracle translator (C01_oracle_translator_cands_fit) and shown necessary (C01_core_total_needs_candidate_shape)",
     ]
     res = vlib.proof_stage(ctx)
     proof_ok = res["ok"]
@@ -248,7 +257,8 @@ def run(ctx):
         for f in ("symbols.yaml", "essay.txt"):
             open(os.path.join(shared, f), "w").write(open(os.path.join(vlib.REPO, "data", "minimal", f)).read())
         dy = yaml.safe_load(default_yaml)
-        dy["schema_list"] = [{"schema": "vt"}, {"schema": "vtab"}]
+        # every third workspace is a single-schema installation (the switcher then has no other schema to offer)
+        dy["schema_list"] = [{"schema": sid}] if k % 3 == 2 else [{"schema": "vt"}, {"schema": "vtab"}]
         yaml.safe_dump(dy, open(os.path.join(shared, "default.yaml"), "w"), allow_unicode=True)
         yaml.safe_dump(tree, open(os.path.join(shared, sid + ".schema.yaml"), "w"), allow_unicode=True, sort_keys=False)
         rc, out = deploy(b, shared, user)
